@@ -93,6 +93,11 @@ pub fn from_value(value: &Value) -> Result<Box<dyn Listener>, Error> {
 #[async_trait]
 impl Listener for TProxyListener {
     async fn init(&mut self) -> Result<(), Error> {
+        // the cache allocates room for that many sockets at once: a number with many digits ended the process
+        // with an allocation failure instead of an error
+        if self.max_udp_socket > 65536 {
+            return Err(err_msg("max_udp_socket must not be greater than 65536"));
+        }
         self.inner = Some(
             Internals {
                 sessions: Default::default(),
